@@ -194,6 +194,18 @@ def prepare_evo_aspirate_dispense_parameters(
             tip = int_to_tip(tip)
         tecan_tips.append(tip)
 
+    # EVOware pairs the selected tips, in ascending order, with the selected wells, in ascending order.
+    if len(set(tecan_tips)) != len(tecan_tips):
+        raise ValueError("Invalid tips: every tip can be selected only once.")
+    if len(set(wells_list)) != len(wells_list):
+        raise ValueError("Invalid wells: every well can be selected only once.")
+    order = sorted(range(len(tecan_tips)), key=lambda i: tecan_tips[i])
+    if [wells_list[i] for i in order] != sorted(wells_list):
+        raise ValueError("Invalid wells: tips in ascending order must be assigned to wells in ascending order.")
+    wells_list = [wells_list[i] for i in order]
+    volume_list = [volume_list[i] for i in order]
+    tecan_tips = [tecan_tips[i] for i in order]
+
     if arm is None:
         raise ValueError("Missing required paramter: arm")
     if not arm == 0 and not arm == 1:
@@ -626,6 +638,6 @@ def evo_wash(
     )
     # calculate tip_selection based on tips argument
     tip_selection = 0
-    for tip in tips:
+    for tip in set(tips):
         tip_selection += tip.value
     return f'B;Wash({tip_selection},{waste_location[0]},{waste_location[1]},{cleaner_location[0]},{cleaner_location[1]},"{waste_vol}",{waste_delay},"{cleaner_vol}",{cleaner_delay},{airgap},{airgap_speed},{retract_speed},{fastwash},{low_volume},1000,{arm});'
